@@ -46,26 +46,37 @@ def load_known():
 
 
 def match_known(known, rep):
-    """A violation is a known finding only if its minimised class and failing
-    call match an entry exactly (see known_findings.json)."""
+    """A violation is a known finding only if its *minimised* history has the
+    shape the entry describes (see known_findings.json).  Matching is on the
+    specific history, not on the property: any other violation of the same
+    property is still reported."""
     for k in known.get("findings", []):
-        if k["property"] != rep["property"] or k["violation_class"] != rep["violation_class"]:
+        if rep["property"] not in k["properties"]:
             continue
-        sig = signature(rep)
-        if all(sig.get(a) == b for a, b in k["signature"].items()):
-            return k
+        if rep["violation_class"] not in k["violation_classes"]:
+            continue
+        if k["matcher"] == "needs_mutation_of_returned_alphabet":
+            if _needs_alphabet_mutation(rep):
+                return k
     return None
 
 
-def signature(rep):
-    """Identity of a finding: which op kinds the minimised history consists
-    of and the failing call's decisive argument."""
-    sig = {"op_kinds": [op["op"] + (":" + op["why"] if op.get("why") else "") for op in rep.get("ops", [])]}
-    v = rep.get("violation", {}).get("detail", {})
-    for key in ("symbol", "string"):
-        if key in v:
-            sig[key] = v[key]
-    return sig
+def _needs_alphabet_mutation(rep):
+    """The 1-minimal history contains a caller-side mutation of a set obtained
+    from get_semantic_robust_alphabet (so the mutation is necessary for the
+    violation), and no configuration update that failed."""
+    ops = rep.get("ops", [])
+    by_id = {op["id"]: op for op in ops}
+    hit = False
+    for op in ops:
+        if op["op"] == "mutate":
+            src = by_id.get(op["h"])
+            if src is None or src["op"] not in ("get_alphabet", "observe", "alpha_decode"):
+                return False
+            hit = True
+        elif op["op"] == "set_table" and "why" in op:
+            return False
+    return hit
 
 
 def finish(engine, prop, tier, seed, runs, res, wall, write_evidence=True, digest_only=False, workers=16):
@@ -78,25 +89,16 @@ def finish(engine, prop, tier, seed, runs, res, wall, write_evidence=True, diges
         print("BATCH-DIGEST %s runs=%d" % (batch_digest, len(good)))
         return 2 if harness else 0
 
-    known = load_known()
-    viols, known_hits = [], []
-    for r in good:
-        rep = r.get("violation")
-        if not rep:
-            continue
-        k = match_known(known, rep)
-        if k:
-            known_hits.append((k, rep))
-        else:
-            viols.append(rep)
-
+    viols = [r["violation"] for r in good if r.get("violation")]
     os.makedirs(os.path.join(env.VERIF, "replays"), exist_ok=True)
     lines = []
-    seen_known = set()
-    for k, rep in known_hits:
-        if k["id"] not in seen_known:
-            seen_known.add(k["id"])
-            lines.append("KNOWN-FINDING: property=%s %s" % (prop, k["what"]))
+    seen_known = {}
+    for r in good:
+        for k in r.get("known", []):
+            if k["id"] not in seen_known:
+                seen_known[k["id"]] = 0
+                lines.append("KNOWN-FINDING: property=%s %s" % (prop, k["what"]))
+            seen_known[k["id"]] += 1
     for rep in viols:
         path = os.path.join(env.VERIF, "replays", "%s-%d-%d.json" % (prop, seed, rep["run"]))
         with open(path, "w") as f:
@@ -142,7 +144,7 @@ def finish(engine, prop, tier, seed, runs, res, wall, write_evidence=True, diges
         "stopped_early_on_violation": res["stopped_early"],
         "other_property_oracles_tripped": sorted({o for r in good for o in r.get("others", [])}),
         "components": COMPONENTS,
-        "known_findings_matched": sorted(seen_known),
+        "known_findings_matched": dict(sorted(seen_known.items())),
     }
     for extra in ("distinct_switch_sites", "context_switches", "late_instrumented", "lock_ops", "overlap_runs"):
         vals = [r[extra] for r in good if extra in r]
